@@ -44,6 +44,20 @@ NOTES = {
  'C06-m9': ('C06, C09', 'the printed exposure section read back against ExposedPeers() in C06 too; the nsexpr motif forced in part of the C09 exposure worlds'),
  'C10-m9': ('C10', 'Services / Ingresses / Routes of the default namespace written without namespace'),
  'C18-m7': ('C18', 'format names in another letter case'), 'C18-m8': ('C18', 'a directory given through a symbolic link with a trailing slash'),
+ 'C05-m8': ('C05', 'a lower ANP with two ports inside the range a higher one denies, over deny-all NetworkPolicies'),
+ 'C08-m9': ('C08, C06, C07', 'two whole-cluster policies of different reach (the C06 alias motif) in the C08 worlds'),
+ 'C09-m7': ('C09', 'diff edits in which two workloads appear or disappear together'), 'C09-m8': ('C09', 'an exposed workload with a 62-character name'),
+ 'C09-m9': ('C09', 'two new/lost workloads with long names (info text longer than 64 characters)'),
+ 'C11-m7': ('C11', 'two sets differing only in the name of their named port'), 'C11-m8': ('C11', 'copy of a set with an excluded name, the name re-allowed in the copy'),
+ 'C12-m8': ('C12', 'an ANP peer with an In expression in the seed set; `values: []` among the always-tried faults'),
+ 'C14-m7': ('C14', 'defaulted policyTypes with an explicit empty egress list vs explicit [Ingress]'), 'C14-m8': ('C14', 'one policy mentioning one CIDR with and without except'),
+ 'C14-m9': ('C14', 'a CIDR written as [C except H, H] in one rule'),
+ 'C15-m8': ('C15, C03', 'one port asked about on all three protocols in a row'),
+ 'C16-m7': ('C16', 'Services/Ingresses/Routes in the focus worlds, every workload targeted'), 'C16-m8': ('C16', 'the dot output under focus read back against the focused report'),
+ 'C16-m9': ('C16', 'focus values with more than one slash'),
+ 'C17-m7': ('C17', 'a Job with an unlabelled template and a labelled object; object-level labels on every controller'), 'C17-m9': ('C17', 'ReplicationController owners (apiVersion v1)'),
+ 'C19-m7': ('C19', 'the controller reference after a non-controller owner in the owner-labels injection'), 'C19-m8': ('C19', 'priorities 0 and 1000 in conflict-free controls'),
+ 'C19-m9': ('C19', 'an ANP named like the BANP in conflict-free controls'),
 }
 base = '/verif/seeded'
 for sid in sorted(os.listdir(base)):
